@@ -102,7 +102,8 @@ def read_requests(stream, max_body=None):
             return [v for k, v in headers if k == nm]
         # ---- Host
         hosts = values(b"host")
-        if version == b"HTTP/1.1" and not hosts:
+        if version is not None and version != b"HTTP/1.0" and not hosts:
+            # RFC 9110 2.5: a higher minor version is processed as the highest supported one (1.1), so Host is owed
             rej("missing-host")
         if len(hosts) > 1:
             rej("multiple-host")
